@@ -406,6 +406,16 @@ def symseq_binop(it, opname, l, r):
 # ---------------------------------------------------------------------------------------------------
 # trial evaluation of a body at a fresh index (comprehensions / loops over symbolic-length sequences)
 # ---------------------------------------------------------------------------------------------------
+def trial_var(it):
+    """canonical index variable for a trial evaluation at the current nesting depth (one per depth and path), so
+    that repeated trials hit the per-sequence memo tables"""
+    d = len(it.path.index_ctx)
+    tv = it.path.__dict__.setdefault("_trial_vars", {})
+    if d not in tv:
+        tv[d] = z3.Int(f"ix@{d}")
+    return tv[d]
+
+
 class IndexContext:
     """context manager: push (index var, lo, hi) on the path for the duration of a body evaluation"""
 
@@ -454,7 +464,7 @@ def symbolic_comprehension(it, e, env, kind, seq):
 
     stateful = StatefulTrial(it)
     # trial evaluation at a fresh index: discovers effects and makes index-dependent decisions uniformly
-    iv = fresh_int("i")
+    iv = trial_var(it)
     with IndexContext(it, iv, 0, n):
         stateful.begin(iv, n)
         try:
@@ -578,7 +588,7 @@ def symbolic_for(it, s, seq, env):
         return {name: p.events for name, p in proxies.items() if p.events}
 
     stateful = StatefulTrial(it)
-    iv = fresh_int("g")
+    iv = trial_var(it)
     with IndexContext(it, iv, 0, n):
         stateful.begin(iv, n)
         try:
@@ -768,7 +778,7 @@ def _len(it, a, k):
         return v.sym_len(it)
     if isinstance(v, Sym):
         if v.pyt is str:
-            return mk_int(z3.Length(v.term))
+            return mk_int(ops.STR_LEN(v.term))
         raise TypeError(f"object of type {v.pyt} has no len()")
     from .interp import _static_lookup, is_repo_func
 
@@ -791,6 +801,11 @@ def _isinstance(it, a, k):
     v, t = a
     ts = t if isinstance(t, tuple) else (t,)
     if isinstance(v, Sym):
+        if isinstance(v.tag, tuple) and v.tag and v.tag[0] == "enum":
+            import construct as _C
+
+            if any(x is _C.EnumIntegerString for x in ts):
+                return True
         cls = v.pyt if isinstance(v.pyt, type) else _PYT_CLASSES.get(v.pyt, object)
         if cls is object:
             return False
@@ -869,7 +884,7 @@ def _zip(it, a, k):
     if len(a) == 1 and isinstance(a[0], StarSym):
         seq = a[0].seq
         # transpose: every element must be a tuple/list of the same (concrete) arity
-        iv = fresh_int("i")
+        iv = trial_var(it)
         with IndexContext(it, iv, 0, seq.len_term()):
             probe = seq.at(Sym(iv, int))
         if not isinstance(probe, (tuple, list)):
@@ -890,7 +905,7 @@ def _map(it, a, k):
     f, *seqs = a
     if len(seqs) == 1 and isinstance(seqs[0], (SymSeq, FlatSeq)):
         s = to_symseq(it, seqs[0])
-        iv = fresh_int("i")
+        iv = trial_var(it)
         stateful = StatefulTrial(it)
         with IndexContext(it, iv, 0, s.len_term()):
             stateful.begin(iv, s.len_term())
@@ -941,8 +956,8 @@ def _bool(it, a, k):
     return NotImplemented
 
 
-IS_INT_TEXT = z3.Function("is_int_text", z3.StringSort(), z3.BoolSort())
-IS_FLOAT_TEXT = z3.Function("is_float_text", z3.StringSort(), z3.BoolSort())
+IS_INT_TEXT = z3.Function("is_int_text", ops.StrSort, z3.BoolSort())
+IS_FLOAT_TEXT = z3.Function("is_float_text", ops.StrSort, z3.BoolSort())
 
 
 @model(int)
@@ -1215,7 +1230,7 @@ def _merge_with(it, a, k):
     if len(dicts) == 1 and isinstance(dicts[0], StarSym):
         seq = dicts[0].seq
         n = seq.len_term()
-        iv = fresh_int("i")
+        iv = trial_var(it)
         with IndexContext(it, iv, 0, n):
             probe = seq.at(Sym(iv, int))
         if not isinstance(probe, dict):
@@ -1460,15 +1475,15 @@ REGISTRY.methods[(dict, "get")] = _dict_get
 def _str_join(it, sep, a, k):
     (parts,) = a
     if isinstance(parts, ops.SymSplit):
-        return Sym(ops.SPLIT_JOIN(z3.StringVal(sep), parts.s.term), str)
+        return Sym(ops.SPLIT_JOIN(ops.str_const(sep), parts.s.term), str)
     items = list(it.iterate(parts)) if not isinstance(parts, (list, tuple)) else list(parts)
     if any(isinstance(x, Sym) for x in items):
         terms = []
         for i, x in enumerate(items):
             if i and sep:
-                terms.append(z3.StringVal(sep))
+                terms.append(ops.str_const(sep))
             terms.append(ops.as_str_term(x))
-        return Sym(z3.Concat(*terms) if len(terms) > 1 else terms[0], str)
+        return Sym(ops.concat_terms(terms), str)
     return sep.join(items)
 
 
@@ -1507,3 +1522,69 @@ class SymMapFn:
             if not it.truth(mk_bool(d)):
                 raise KeyError(key)
         return self.val(k)
+
+
+# ---------------------------------------------------------------------------------------------------
+# datetime (integer microsecond model, see ops.py)
+# ---------------------------------------------------------------------------------------------------
+import datetime as _dt  # noqa: E402
+
+SEC2US = z3.Function("seconds_to_us", ops.F64, z3.IntSort())  # timedelta(seconds=float): rounding to µs (uninterpreted)
+
+
+def _datetime_ctor(it, cls, a, k):
+    if not any(isinstance(x, Sym) for x in list(a) + list(k.values())):
+        return NotImplemented
+    names = ["year", "month", "day", "hour", "minute", "second", "microsecond"]
+    vals = dict(zip(names, a))
+    vals.update(k)
+    y = vals.get("year")
+    m, d = vals.get("month"), vals.get("day")
+    if isinstance(m, Sym) or isinstance(d, Sym) or any(isinstance(vals.get(n), Sym) for n in names[3:]):
+        raise Unsupported("datetime() with symbolic month/day/time")
+    if (m, d) != (1, 1) or any(vals.get(n, 0) for n in names[3:]):
+        raise Unsupported("datetime() with symbolic year and a date other than 1 January 00:00")
+    return Sym(ops.JAN1(as_int_term(y)) * ops.US_PER_DAY, _dt.datetime)
+
+
+REGISTRY.constructors[_dt.datetime] = _datetime_ctor
+
+
+def _timedelta_ctor(it, cls, a, k):
+    if not any(isinstance(x, Sym) for x in list(a) + list(k.values())):
+        return NotImplemented
+    names = ["days", "seconds", "microseconds", "milliseconds", "minutes", "hours", "weeks"]
+    vals = dict(zip(names, a))
+    vals.update(k)
+    scale = {"days": ops.US_PER_DAY, "seconds": 10**6, "microseconds": 1, "milliseconds": 1000,
+             "minutes": 60 * 10**6, "hours": 3600 * 10**6, "weeks": 7 * ops.US_PER_DAY}
+    total = z3.IntVal(0)
+    for n, v in vals.items():
+        if isinstance(v, Sym) and v.pyt is float or isinstance(v, float):
+            if n != "seconds":
+                raise Unsupported("timedelta with float " + n)
+            total = total + SEC2US(ops.as_f64_term(v))
+        else:
+            total = total + as_int_term(v) * scale[n]
+    return Sym(z3.simplify(total), _dt.timedelta)
+
+
+REGISTRY.constructors[_dt.timedelta] = _timedelta_ctor
+
+
+@model(_dt.datetime.combine)
+def _combine(it, a, k):
+    d, t = a[0], a[1]
+    if isinstance(d, Sym) and d.pyt == "date":
+        if t != _dt.time.min:
+            raise Unsupported("datetime.combine with a time other than midnight")
+        return Sym(d.term, _dt.datetime)
+    return NotImplemented
+
+
+@model(_dt.datetime.strptime)
+def _strptime(it, a, k):
+    s, fmt = a
+    if isinstance(s, Sym):
+        return Sym(ops.STRPTIME(s.term, ops.str_const(fmt)), _dt.datetime)
+    return NotImplemented
